@@ -116,13 +116,17 @@ def sortStrings (l : List String) : List String := (l.toArray.qsort (· < ·)).t
 partial def showTV : Ty → V → String
   | .seq k t, .seq l =>
     let items := l.toList.map (showTV t)
-    let items := match k with | .set => sortStrings items | _ => items
+    let items := match k with | .set => (sortStrings items).eraseDups | .bag => sortStrings items | _ => items
     "(q" ++ String.join (items.map (" " ++ ·)) ++ ")"
   | .map k x, .seq l =>
-    let items := l.toList.map (fun p =>
+    -- a map keeps the last value inserted for a key; iteration order is not part of the value
+    let pairs : List (String × String) := l.toList.map (fun p =>
       match p with
-      | .tup (.cons a (.cons b .nil)) => "(t " ++ showTV k a ++ " " ++ showTV x b ++ ")"
-      | o => showV o)
+      | .tup (.cons a (.cons b .nil)) => (showTV k a, showTV x b)
+      | o => (showV o, ""))
+    let dedup : List (String × String) := pairs.foldl (fun acc (kv : String × String) =>
+      (acc.filter (fun e => e.1 != kv.1)) ++ [kv]) []
+    let items := dedup.map (fun kv => "(t " ++ kv.1 ++ " " ++ kv.2 ++ ")")
     "(q" ++ String.join ((sortStrings items).map (" " ++ ·)) ++ ")"
   | .opt t, .some v => "(j " ++ showTV t v ++ ")"
   | .res a _, .alt 1 v => "(a 1 " ++ showTV a v ++ ")"
@@ -193,6 +197,7 @@ partial def parseTy (env : TyEnv) : Sx → Option Ty
   | .list [.atom "vec", t] => (parseTy env t).map (.seq .vec)
   | .list [.atom "seq", t] => (parseTy env t).map (.seq .plain)
   | .list [.atom "set", t] => (parseTy env t).map (.seq .set)
+  | .list [.atom "bag", t] => (parseTy env t).map (.seq .bag)
   | .list [.atom "avec", .atom n, t] =>
     match n.toNat?, parseTy env t with
     | some n, some t => some (.seq (.arrayVec n) t)
